@@ -4,6 +4,7 @@ package main
 
 import (
 	"fmt"
+	"go/constant"
 	"math"
 	"go/ast"
 	"go/token"
@@ -16,7 +17,7 @@ const maxInlineDepth = 10
 
 func isSpecHelper(f *types.Func) bool {
 	switch f.Name() {
-	case "old", "forallInt", "existsInt", "forallReal", "existsReal", "implies", "assert", "assume", "iff", "fresh", "memEq", "lemmaUse", "wfd", "bnd", "sameSlice", "sameSlice16", "iterStart", "allocd", "ghostRank", "rangeIndex", "inPlace", "same":
+	case "old", "forallInt", "existsInt", "forallReal", "existsReal", "implies", "assert", "assume", "iff", "fresh", "memEq", "lemmaUse", "wfd", "bnd", "sameSlice", "sameSlice16", "iterStart", "allocd", "ghostRank", "rangeIndex", "inPlace", "same", "sharesMem", "wroteSeq", "wroteLast":
 		return f.Pkg() != nil && strings.Contains(f.Pkg().Path(), "tdewolff/canvas")
 	}
 	return false
@@ -54,6 +55,33 @@ func (x *Exec) callMulti(s *State, call *ast.CallExpr) []*Term {
 	case *types.Builtin:
 		return x.callBuiltin(s, o.Name(), call)
 	case *types.Func:
+		// devirtualise <GlobalIfaceVar>.Method() when the global is initialised with a value of a known concrete
+		// type (the global frame analysis of C20 reports any later assignment to such a variable)
+		if sig, ok := o.Type().(*types.Signature); ok && sig.Recv() != nil && isInterface(sig.Recv().Type()) {
+			if sel, ok := unparen(call.Fun).(*ast.SelectorExpr); ok {
+				if id, ok := unparen(sel.X).(*ast.Ident); ok {
+					if gv, ok := x.objOf(id).(*types.Var); ok && x.isGlobal(gv) {
+						if init := x.eng.globalInit[gv]; init != nil {
+							if ct := x.eng.globalInitPkg[gv].TypesInfo.TypeOf(init); ct != nil && !isInterface(ct) {
+								if m, _, _ := types.LookupFieldOrMethod(ct, true, gv.Pkg(), o.Name()); m != nil {
+									if mf, ok := m.(*types.Func); ok {
+										if fi := x.eng.funcs[mf.Origin()]; fi != nil {
+											recv := x.zero(ct)
+											if cl, ok := unparen(init).(*ast.CompositeLit); ok {
+												x.frames = append(x.frames, &Frame{fi: fi, info: x.eng.globalInitPkg[gv].TypesInfo, inlined: true})
+												recv = x.evalComposite(s, cl, ct)
+												x.frames = x.frames[:len(x.frames)-1]
+											}
+											return x.callStatic(s, fi, recv, call)
+										}
+									}
+								}
+							}
+						}
+					}
+				}
+			}
+		}
 		return x.callFunc(s, o, call)
 	case *types.Var:
 		// closure bound to a local variable
@@ -1215,6 +1243,49 @@ func (x *Exec) callSpecHelper(s *State, fn *types.Func, call *ast.CallExpr) []*T
 		v := x.eval(tmp, call.Args[1])
 		x.dry--
 		return []*Term{v}
+	case "wroteSeq", "wroteLast":
+		// ghost write log queries, evaluated on the concrete log of the current path
+		var lits []string
+		for _, a := range call.Args {
+			tv, ok := x.tv(a)
+			if !ok || tv.Value == nil || tv.Value.Kind() != constant.String {
+				return []*Term{x.freshVar("wrote", SBool)}
+			}
+			lits = append(lits, constant.StringVal(tv.Value))
+		}
+		if s.logBad {
+			x.note("ghost write log unknown after a merge: use split deep")
+			return []*Term{x.freshVar("wrote", SBool)}
+		}
+		log := s.log
+		found := false
+		if fn.Name() == "wroteLast" {
+			if len(log) >= len(lits) {
+				found = true
+				for i, l := range lits {
+					if log[len(log)-len(lits)+i] != l {
+						found = false
+					}
+				}
+			}
+		} else {
+			for i := 0; i+len(lits) <= len(log); i++ {
+				ok := true
+				for j, l := range lits {
+					if log[i+j] != l {
+						ok = false
+					}
+				}
+				if ok {
+					found = true
+				}
+			}
+		}
+		return []*Term{BoolLit(found)}
+	case "sharesMem":
+		a := x.eval(s, call.Args[0])
+		b := x.eval(s, call.Args[1])
+		return []*Term{And(Eq(Field(a, 0), Field(b, 0)), Cmp(">", Field(a, 3), IntLit(0)), Cmp(">", Field(b, 3), IntLit(0)))}
 	case "same":
 		a := x.eval(s, call.Args[0])
 		b := x.eval(s, call.Args[1])
@@ -1321,4 +1392,25 @@ func (x *Exec) inTopClause() bool {
 var pureExternalPkgs = map[string]bool{
 	"time": true, "unicode/utf16": true, "unicode/utf8": true, "unicode": true, "strings": true, "strconv": true,
 	"math": true, "math/bits": true, "errors": true, "path/filepath": true, "image/color": true,
+}
+
+// callStatic: call of a known function with an already evaluated receiver
+func (x *Exec) callStatic(s *State, fi *FuncInfo, recv *Term, call *ast.CallExpr) []*Term {
+	sig := fi.Obj.Type().(*types.Signature)
+	args := x.evalArgs(s, call, sig)
+	if s.dead {
+		return x.deadResults(call)
+	}
+	ct := x.eng.contracts[fi.Obj]
+	if ct != nil && x.frames[0].contract != nil && x.frames[0].contract.Unfold[fi.Key] && fi.Decl.Body != nil {
+		ct = nil
+	}
+	if ct != nil && (ct.Opaque || ct.Trusted != "" || x.eng.modular(ct)) {
+		return x.callModular(s, fi, ct, recv, args, call)
+	}
+	if fi.Decl.Body != nil && len(x.frames) < maxInlineDepth && !x.onStack(fi) {
+		return x.inline(s, fi, recv, args, call)
+	}
+	x.havocAllHeap(s)
+	return x.havocResults(s, call)
 }
